@@ -279,6 +279,8 @@ class AbsEval(PyEval):
                 members = self.enum_members(base)
                 if members is not None and attr in members:
                     return members[attr]
+                if members is not None and attr == "__members__":
+                    return dict(members)
                 r = c.find_attr(attr)
                 if r is not None:
                     key = (r[0].mod.rel, r[0].name, attr)
@@ -295,6 +297,9 @@ class AbsEval(PyEval):
                     if "classmethod" in decos:
                         return BoundMethod(base, owner, fn, "class")
                     return BoundMethod(None, owner, fn, "unbound")
+                if attr.startswith("__") and attr.endswith("__"):
+                    # a special attribute the model does not know is not evidence that the program raises
+                    raise Unknown(f"special attribute {base.name}.{attr} is outside the interpreted fragment")
                 raise raised("AttributeError", f"{base.name}.{attr}", self.where(n))
         if isinstance(base, EnumMember):
             if attr == "value":
